@@ -244,7 +244,7 @@ def run(ctx: core.Ctx, only=None) -> core.Result:
     if only is not None:
         specs = [o.get('input', o).get('spec', o.get('input', o)) for o in only]
     else:
-        gen = [gen_spec(ctx.rng) for _ in range(ctx.scale(2, 8))]
+        gen = [gen_spec(ctx.rng) for _ in range(ctx.scale(2, 4))]      # thorough: every crash point of 4 systems (~15 min)
         gen[-1].update(two=True, three=True)     # every run has a system with a surrogate-less component
         gen[0]['continued'] = True               # … and one whose interrupted call continues an existing history
         if len(gen) > 1:
